@@ -80,7 +80,9 @@ OPERATORS = {
     '<>': operator.ne,
 }
 
-OPERATORS_RE = re.compile('^(?P<oper>(=|<>|<=?|>=?))?(?P<value>.*)$')
+# (the value can be a text with line breaks)
+OPERATORS_RE = re.compile(
+    r'^(?P<oper>(=|<>|<=?|>=?))?(?P<value>.*)\Z', re.DOTALL)
 
 PYTHON_AST_OPERATORS = {
     'Eq': operator.eq,
